@@ -688,6 +688,7 @@ func famC06(r *Run) {
 	}
 	famC06extra(r)
 	famFunctionEdges(r)
+	famJSONNumberDocs(r)
 }
 
 // ---- C07: truth, logic, comparators ----
